@@ -284,10 +284,16 @@ def plan(tier: str, seed: int, scale: float = 1.0) -> List[Any]:
         items.append({'kind': 'robust', 'n': max(1, rb // n), 'seed': seed * 1000 + 100 + i})
     for i in range(n):
         items.append({'kind': 'bytes', 'n': max(1, rb // (4 * n)), 'seed': seed * 1000 + 200 + i})
+    if tier == 'thorough':
+        for i in range(max(2, n // 2)):
+            items.append({'kind': 'atheris', 'seconds': int(240 * scale), 'seed': seed * 1000 + 300 + i})
     return items
 
 
 def work(item: Dict[str, Any]) -> Acc:
+    if item['kind'] == 'atheris':
+        from ..core import run_fuzz_item
+        return run_fuzz_item(ID, 'c17', item['seconds'], item['seed'])
     acc = Acc()
     if item['kind'] == 'roundtrip':
         from .c01 import st_tree
